@@ -45,7 +45,10 @@ sits in shared code), and reverts. Result of the last sweep (`seeded/RESULTS.jso
 change is reported by the check of its own property with a concrete failing input** as
 replay; neighbouring checks that share the code often report it too, some only as a broken
 correspondence or bridge (`no-failing-input-found`), some not at all (their property does not
-depend on the changed behaviour for the inputs they generate).
+depend on the changed behaviour for the inputs they generate). The own-property entry of each row
+is from the last sweep over all changes; the entries of neighbouring checks are from the sweep of the
+round in which the change was added (they were not re-run at the end, and those checks have gained
+inputs since).
 
 | seed | change | file(s) | reported by |
 |---|---|---|---|
@@ -324,13 +327,15 @@ What the seeded changes taught, and what was added to the checks because of them
 `./setup.sh` (once per checkout; regenerates `coq/Gen`, full build), then `./check Cnn --tier
 quick|thorough`. Every run regenerates the pieces of `coq/Gen` the property depends on from
 `/repo`'s working tree, rebuilds `Props/Cnn.v` and its cone, re-evaluates the correspondence
-and rewrites `evidence/Cnn.json`. Quick runs take 4-50 s per property (C12/C13: 1-2 min because
-of the watchdog budget, which is CPU time of the loading process, not wall-clock), the whole
-quick pass about 10 min on 16 cores; thorough runs take up to 6 min (C08) — the last full
-thorough pass over all twenty properties took 27 min and reported no violation on the unchanged
-tree. `vp check` (fresh copy, no network, every quick command once) reported nothing needing
-attention. `coqchk -o` over the twenty `Props` files was run at the end of the build phase:
-no axioms (`evidence/coqchk.txt`).
+and rewrites `evidence/Cnn.json`. Quick runs take 5-70 s per property (C08, C12, C13: about a
+minute - C13 because of the watchdog budget, which is CPU time of the loading process, not
+wall-clock), the whole quick pass about 10 min on 16 cores; the last full thorough pass over all
+twenty properties (2026-10-02 20:18-20:49Z, after the last change to checks and models) took
+31 min and reported no violation on the unchanged tree; the committed `evidence/*.json` are from
+that pass. The last sweep of `tools/seed_matrix.py` over all {n} seeded changes (own property's
+check only, 18:25-20:09Z) had every one reported with a failing input. `coqchk -o` over the twenty
+`Props` files was re-run after the last Coq change (20:59Z, 5m44s): no axioms, nothing relying on
+type-in-type, unsafe fixpoints or assumed positivity (`evidence/coqchk.txt`).
 """
 d = open(f"{V}/DESIGN.md").read()
 i = d.find("\n---------------------------------------------------------------------------------------------\n\n## 10. As built")
